@@ -728,7 +728,15 @@ impl Parse for ImplGroups {
     fn parse(input: ParseStream) -> syn::parse::Result<Self> {
         let mut impl_groups = IndexMap::<_, IndexMap<_, _>>::new();
 
-        let main_trait = input.parse::<ItemTrait>().ok();
+        // NOTE: A failed parse doesn't rewind the cursor (attributes of the first impl would be lost)
+        let main_trait = {
+            let fork = input.fork();
+
+            fork.parse::<ItemTrait>().ok().inspect(|_| {
+                use syn::parse::discouraged::Speculative;
+                input.advance_to(&fork);
+            })
+        };
         while let Ok(mut item) = input.parse::<ItemImpl>() {
             param::resolve_non_predicate_params(&mut item);
 
